@@ -223,6 +223,7 @@ def optChange (key : String) (val : JVal) : Option OptChange :=
   | "stop_children", .bool b => some (.stopChildren b)
   | "send_hup", .bool b => some (.sendHup b)
   | "max_age", .int i => some (.maxAge i.toNat)
+  | "max_age", .bool b => some (.maxAge (if b then 1 else 0))     -- `int(True)`: a bool passes validate_option as an int
   | "uid", .int 0 => some .nothing
   | "uid", .str "root" => some .nothing
   | "uid", _ => none
